@@ -423,6 +423,7 @@ class Generator:
         self.uses = []
         self.defines = set()
         self.lost = []
+        self.consts = {}
 
     def source(self, rel):
         if rel not in self.sources:
@@ -457,6 +458,15 @@ class Generator:
             elif s.startswith('//@struct') or s.startswith('//@enum'):
                 p = s.split()
                 self.emit_item(p[0][3:], p[1], p[2], p[3:])
+            elif s.startswith('//@const'):
+                # //@const NAME <src> <regex with one group>: a literal taken from the working tree (e.g. a default value); later
+                # template text may use @NAME@.  Keeps the spec in step with constants the properties do not pin down.
+                parts = s.split(None, 3)
+                srcf = self.source(parts[2])
+                mt = re.search(parts[3], srcf.text)
+                if not mt:
+                    raise LostAnchor('%s: constant %s not found (%s)' % (parts[2], parts[1], parts[3]))
+                self.consts[parts[1]] = mt.group(1).strip()
             elif s.startswith('//@lemma'):
                 # //@lemma <name> <props...>: a spec-level lemma over the contracts (template text, not extracted code) that carries a property
                 parts = s.split()
@@ -481,6 +491,8 @@ class Generator:
             elif s.startswith('//@'):
                 raise SystemExit('unknown directive: ' + s)
             else:
+                if '@' in ln and self.consts:
+                    ln = re.sub(r'@(\w+)@', lambda m_: self.consts.get(m_.group(1), m_.group(0)), ln)
                 self.out.emit(ln, None)
                 pl = getattr(self, 'pending_lemma', None)
                 if pl and re.search(r'\bproof fn\s+' + re.escape(pl[0]) + r'\b', ln):
@@ -623,7 +635,7 @@ class Generator:
             out.emit(indent + keyword)
             for c in cls:
                 a = out.lineno() + 1
-                out.emit(indent + '    ' + c.text + ',', dict(kind='clause', clause=c))
+                out.emit(indent + '    ' + self.subst(c.text) + ',', dict(kind='clause', clause=c))
                 c2 = c
                 clauses.append((c, a, out.lineno(), kid))
 
@@ -663,7 +675,7 @@ class Generator:
             if not ls:
                 return ''
             ind = min(len(l) - len(l.lstrip()) for l in ls if l.strip())
-            return '\n'.join('        ' + l[ind:] for l in ls)
+            return self.subst('\n'.join('        ' + l[ind:] for l in ls))
 
         if fn.head:
             inserts.append((0, '\n' + ghost_text(fn.head) + '\n', 'ghost'))
@@ -814,6 +826,11 @@ class Generator:
         out.emit('    }', dict(kind='body-end', fn=fn.qual))
         rec['end_line'] = out.lineno()
         self.fns.append(rec)
+
+    def subst(self, text):
+        if '@' in text and self.consts:
+            return re.sub(r'@(\w+)@', lambda m_: self.consts.get(m_.group(1), m_.group(0)), text)
+        return text
 
     # ---- write ---------------------------------------------------------
     def write(self, gen_dir):
